@@ -341,6 +341,25 @@ RULESETS = {
     "pade": PADE,
     "padeb": PADE_B,
     "expm_tail": EXPM_TAIL,
+    "eigsys": [
+        Rule("eig.closed_form", r'#\s*include\s*<SQuIDS/SU_inc/EigenSystemSU3\.txt>', 'sq_closed_form_su3(self,eigenvalues,eigenvectors);', min=1),
+        Rule("eig.getmatrix", r'auto\s+matrix\s*=\s*\(\s*\*\s*this\s*\)\s*\.\s*GetGSLMatrix\s*\(\s*\)\s*;', 'gsl_matrix_complex* matrix_=su_GetGSLMatrix(self);', min=1),
+        Rule("eig.matrix.get", r'\bmatrix\s*\.\s*get\s*\(\s*\)', 'matrix_', min=1),
+        Rule("eig.define", r'#\s*(define\s+SQ\(x\).*|undef\s+SQ)', ''),
+        Rule("eig.dim", r'(?<![\w.>])dim\b', 'self->dim', min=3),
+        # C++ function-local static with a dynamic initialiser: initialised on first execution
+        Rule("eig.static_local", r'static\s+(?:SQUIDS_THREAD_LOCAL\s+|thread_local\s+)?([\w:]+\s*\*?)\s*(\w+)\s*=\s*([^;]+);',
+             r'static \1 \2; static int \2_init_; if(!\2_init_){ \2=\3; \2_init_=1; }'),
+    ],
+    "eig3": [
+        Rule("eig3.div", r'/\s*([A-Za-z_]\w*)\b(?!\s*[\w(\[])', r'/sq_nz(\1)', min=1),
+        Rule("eig3.arg", r'std::arg\s*\(\s*std::complex<double>\s*\{([^{}]*)\}\s*\)', r'sq_arg(\1)', min=1),
+        Rule("eig3.pow", r'(?<![\w.>:])pow\s*\(', 'sq_pow('),
+        Rule("eig3.cbrt", r'(?<![\w.>:])cbrt\s*\(', 'sq_cbrt('),
+        Rule("eig3.sqrt", r'(?<![\w.>:])sqrt\s*\(', 'sq_sqrt('),
+        Rule("eig3.cos", r'(?<![\w.>:])cos\s*\(', 'sq_cos('),
+        Rule("eig3.sin", r'(?<![\w.>:])sin\s*\(', 'sq_sin('),
+    ],
     "expm_head": [EXPM_TAIL[0]] + EXPM_TAIL[3:],
     "squids_c05": SQUIDS_C05,
     "squids_forms": SQUIDS_FORMS,
